@@ -80,6 +80,8 @@ class Fold:
             if isinstance(e.op, ast.Sub):
                 return a - b
             if isinstance(e.op, ast.Mult):
+                if isinstance(a, sp.MatrixBase) and isinstance(b, sp.MatrixBase):
+                    return a.multiply_elementwise(b)    # numpy `*` of two arrays
                 return a * b
             if isinstance(e.op, ast.Div):
                 return a / b
@@ -139,53 +141,175 @@ def d1_clifford(ctx, m, fold):
     return g, g5
 
 
+class _Raised(Exception):
+    pass
+
+
+class GridInterp:
+    """Evaluates Grid_gamma for one concrete tag: string tests are evaluated on the tag, matrix expressions are folded exactly.
+    Tracks whether a module-level table (an object reachable from the module constants) is updated in place."""
+
+    SAFE = {'len': len, 'str': str, 'isinstance': isinstance, 'ValueError': ValueError, 'KeyError': KeyError, 'Exception': Exception, 'any': any, 'all': all, 'tuple': tuple,
+            'list': list, 'set': set, 'frozenset': frozenset, 'int': int, 'bool': bool, 'sorted': sorted, 'dict': dict}
+
+    def __init__(self, mod, fold, func):
+        self.mod, self.fold, self.f = mod, fold, func
+        self.shared = set()
+
+        def reach(v):
+            if isinstance(v, sp.MatrixBase):
+                self.shared.add(id(v))
+            elif isinstance(v, (list, tuple)):
+                for x in v:
+                    reach(x)
+            elif isinstance(v, dict):
+                for x in v.values():
+                    reach(x)
+        for v in fold.env.values():
+            reach(v)
+
+    def ev(self, e, env):
+        if isinstance(e, ast.Call) and isinstance(e.func, ast.Attribute) and e.func.attr == 'copy' and not e.args:
+            v = self.ev(e.func.value, env)
+            return v.copy() if hasattr(v, 'copy') else v
+        if isinstance(e, ast.Call) and (self.mod.dotted(e.func) or '') in ('numpy.array', 'numpy.copy') and len(e.args) == 1:
+            v = self.ev(e.args[0], env)
+            return v.copy() if isinstance(v, sp.MatrixBase) else v
+        if isinstance(e, ast.Dict) and all(isinstance(k, ast.Constant) for k in e.keys):
+            return {k.value: self.ev(v, env) for k, v in zip(e.keys, e.values)}
+        try:
+            return self.fold.ev(e, env)
+        except Unrecognised:
+            pass
+        if any(isinstance(x, (ast.Lambda, ast.Await, ast.Yield, ast.NamedExpr)) or (isinstance(x, ast.Attribute) and x.attr.startswith('_')) for x in ast.walk(e)):
+            raise Unrecognised('expression %s' % unparse(e))
+        try:
+            return eval(compile(ast.Expression(body=e), '<grid>', 'eval'), {'__builtins__': self.SAFE}, dict(env))
+        except (KeyError, ValueError, IndexError) as ex_:
+            raise _Raised(type(ex_).__name__)
+        except Exception as ex_:
+            raise Unrecognised('cannot evaluate %s: %r' % (unparse(e), ex_))
+
+    def run(self, tag):
+        env = dict(self.fold.env)
+        env[self.f.args.args[0].arg] = tag
+        self.inplace = []
+        try:
+            r = self.block(self.f.body, env)
+        except _Raised as ex_:
+            return ('raise', str(ex_))
+        return r if r is not None else ('return', None)
+
+    def block(self, body, env):
+        for s in body:
+            if isinstance(s, ast.Expr) and isinstance(s.value, ast.Constant):
+                continue
+            if isinstance(s, ast.Pass):
+                continue
+            if isinstance(s, ast.Assign) and len(s.targets) == 1 and isinstance(s.targets[0], ast.Name):
+                env[s.targets[0].id] = self.ev(s.value, env)
+            elif isinstance(s, ast.Assign) and len(s.targets) == 1 and isinstance(s.targets[0], ast.Subscript):
+                base = self.ev(s.targets[0].value, env)
+                if id(base) in self.shared:
+                    self.inplace.append((s, unparse(s.targets[0].value)))
+                raise Unrecognised('element assignment %s' % unparse(s))
+            elif isinstance(s, ast.AugAssign) and isinstance(s.target, ast.Name):
+                old = self.ev(s.target, env)
+                if id(old) in self.shared:
+                    self.inplace.append((s, s.target.id))
+                new = self.ev(ast.BinOp(left=s.target, op=s.op, right=s.value), env)
+                env[s.target.id] = new
+            elif isinstance(s, ast.If):
+                t = self.ev(s.test, env)
+                if isinstance(t, sp.MatrixBase):
+                    raise Unrecognised('matrix valued test %s' % unparse(s.test))
+                r = self.block(s.body if t else s.orelse, env)
+                if r is not None:
+                    return r
+            elif isinstance(s, ast.Return):
+                return ('return', self.ev(s.value, env) if s.value is not None else None)
+            elif isinstance(s, ast.Raise):
+                raise _Raised(unparse(s.exc.func) if isinstance(s.exc, ast.Call) else unparse(s.exc) if s.exc else 'raise')
+            elif isinstance(s, ast.Try) and not s.finalbody:
+                try:
+                    r = self.block(s.body, env)
+                except _Raised as ex_:
+                    hs = [h for h in s.handlers if h.type is None or str(ex_) in unparse(h.type) or unparse(h.type) in ('Exception', 'LookupError')]
+                    if not hs:
+                        raise
+                    r = self.block(hs[0].body, env)
+                else:
+                    if r is None and s.orelse:
+                        r = self.block(s.orelse, env)
+                if r is not None:
+                    return r
+            else:
+                raise Unrecognised('statement %s' % unparse(s).splitlines()[0])
+        return None
+
+
 def d2_grid(ctx, m, fold, g, g5):
+    """Grid_gamma is evaluated for every one of the 16 tags (string tests decided on the concrete tag, the selected matrix
+    expression folded exactly) and for tags outside the table; the result is compared with the product / commutator the tag names.
+    A branch that updates a module-level matrix in place changes what later calls (and the Clifford algebra) see."""
     rule = 'C20-D2'
     f = m.func('Grid_gamma')
-    tagp = f.args.args[0].arg
     want = {'Identity': sp.eye(4), 'Gamma5': g[0] * g[1] * g[2] * g[3]}
     for i, a in enumerate(AXES):
         want['Gamma' + a] = g[i]
         want['Gamma%sGamma5' % a] = g[i] * want['Gamma5']
     for i, j in itertools.combinations(range(4), 2):
         want['Sigma%s%s' % (AXES[i], AXES[j])] = sp.Rational(1, 2) * (g[i] * g[j] - g[j] * g[i])
-    # walk the if/elif chain
-    found = {}
-    node = f.body[0] if isinstance(f.body[0], ast.If) else next((s for s in f.body if isinstance(s, ast.If)), None)
-    else_raises = False
-    while node is not None:
-        t = node.test
-        if not (isinstance(t, ast.Compare) and len(t.ops) == 1 and isinstance(t.ops[0], ast.Eq) and unparse(t.left) == tagp and isinstance(t.comparators[0], ast.Constant)):
-            ctx.unrec(rule, 'dirac.py:Grid_gamma#chain', 'unexpected test %s' % unparse(t), m.loc(node))
-            return
-        tag = t.comparators[0].value
-        asg = [s for s in node.body if isinstance(s, (ast.Assign, ast.Return))]
-        if len(asg) != 1:
-            ctx.unrec(rule, 'dirac.py:Grid_gamma#%s' % tag, 'branch body not a single assignment/return')
-        else:
-            found[tag] = (asg[0].value, node)
-        if len(node.orelse) == 1 and isinstance(node.orelse[0], ast.If):
-            node = node.orelse[0]
-        else:
-            else_raises = any(isinstance(s, ast.Raise) for s in node.orelse)
-            node = None
+    if len(f.args.args) != 1:
+        ctx.unrec(rule, 'dirac.py:Grid_gamma', 'expected one parameter')
+        return
+    it = GridInterp(m, fold, f)
+    n = 0
+    inplace = {}
     for tag, w in want.items():
         key = 'dirac.py:Grid_gamma#%s' % tag
-        if tag not in found:
-            ctx.violated(rule, key, 'tag %s is not handled' % tag, m.loc(f))
-            continue
         try:
-            got = fold.ev(found[tag][0])
+            out = it.run(tag)
         except Unrecognised as e:
-            ctx.unrec(rule, key, str(e), m.loc(found[tag][1]))
+            ctx.unrec(rule, key, str(e), m.loc(f))
             continue
-        ctx.check(rule, key, isinstance(got, sp.MatrixBase) and got == w, '%s = %s' % (tag, unparse(found[tag][0])),
-                  'tag %s returns %s = %s, its name denotes %s' % (tag, unparse(found[tag][0]), got.tolist() if isinstance(got, sp.MatrixBase) else got, w.tolist()), m.loc(found[tag][1]))
-    for tag in found:
-        if tag not in want:
-            ctx.unrec(rule, 'dirac.py:Grid_gamma#%s' % tag, 'tag outside the naming scheme; meaning unknown', m.loc(found[tag][1]))
-    ctx.check(rule, 'dirac.py:Grid_gamma#else', else_raises, 'unknown tags raise', 'unknown tags do not raise', m.loc(f))
-    ctx.floor('Grid_gamma tags folded', len(found), 16)
+        for st, nm in it.inplace:
+            inplace.setdefault((st.lineno, nm), (st, tag))
+        n += 1
+        if out[0] == 'raise':
+            ctx.violated(rule, key, 'tag %s is not handled (%s raised)' % (tag, out[1]), m.loc(f))
+            continue
+        got = out[1]
+        ctx.check(rule, key, isinstance(got, sp.MatrixBase) and got == w, '%s evaluates to the structure its name denotes' % tag,
+                  'tag %s returns %s, its name denotes %s' % (tag, got.tolist() if isinstance(got, sp.MatrixBase) else got, w.tolist()), m.loc(f))
+    unknown = ['', 'Foo', 'GammaW', 'SigmaXX', 'gamma5', 'identity', 'Gamma5GammaX', 'SigmaTX']
+    notraise = []
+    for tag in unknown:
+        try:
+            out = it.run(tag)
+        except Unrecognised as e:
+            ctx.unrec(rule, 'dirac.py:Grid_gamma#else', '%r: %s' % (tag, e), m.loc(f))
+            break
+        for st, nm in it.inplace:
+            inplace.setdefault((st.lineno, nm), (st, tag))
+        if out[0] != 'raise':
+            notraise.append(tag)
+    else:
+        ctx.check(rule, 'dirac.py:Grid_gamma#else', not notraise, 'tags outside the table raise (%d evaluated)' % len(unknown), 'unknown tags %s do not raise' % notraise, m.loc(f))
+    # prefixed variants of known tags: whatever they return, evaluating them must not write to the module tables
+    for pre in sorted({c.value for c in ast.walk(f) if isinstance(c, ast.Constant) and isinstance(c.value, str) and c.value.isalpha() and c.value not in want and len(c.value) < 12}):
+        for tag in ('Identity', 'GammaX', 'SigmaXT'):
+            for t2 in (pre + tag, tag + pre):
+                try:
+                    it.run(t2)
+                except Unrecognised:
+                    continue
+                for st, nm in it.inplace:
+                    inplace.setdefault((st.lineno, nm), (st, t2))
+    ctx.check(rule, 'dirac.py:Grid_gamma#tables-read-only', not inplace, 'no tag makes the function update a module-level matrix in place',
+              '; '.join('`%s` updates the module-level matrix bound to %s in place for tag %r: every later call and the Clifford algebra see the changed table' % (unparse(st), nm, tag) for (ln, nm), (st, tag) in sorted(inplace.items())),
+              m.loc(next(iter(inplace.values()))[0]) if inplace else None)
+    ctx.floor('Grid_gamma tags folded', n, 16)
 
 
 def d3_epsilon(ctx, m):
@@ -364,6 +488,10 @@ def run(ctx):
 
 
 SELFTEST = [
+    ('benign-minus-prefix', 'pyerrors/dirac.py', "    if gamma_tag == 'Identity':", "    minus = gamma_tag.startswith('Minus')\n    if minus:\n        gamma_tag = gamma_tag[5:]\n    if gamma_tag == 'Identity':", 'BENIGN'),
+    ('minus-inplace', 'pyerrors/dirac.py', "        raise ValueError('Unkown gamma structure', gamma_tag)\n", "        raise ValueError('Unkown gamma structure', gamma_tag)\n    if gamma_tag.endswith('5'):\n        g *= -1\n        g *= -1\n", 'C20-D2'),
+    ('benign-grid-table', 'pyerrors/dirac.py', "    if gamma_tag == 'Identity':\n        g = identity", "    if gamma_tag in ('Identity', 'One'):\n        g = identity.copy()", 'BENIGN'),
+    ('grid-inplace-sign', 'pyerrors/dirac.py', "    elif gamma_tag == 'Gamma5':\n        g = gamma5", "    elif gamma_tag == 'Gamma5':\n        g = gamma5\n        g *= 1", 'C20-D2'),
     ('benign-sigma-via-helper', 'pyerrors/dirac.py', 'def Grid_gamma(gamma_tag):\n    """Returns gamma matrix in Grid labeling."""\n    if gamma_tag == \'Identity\':\n        g = identity\n    elif gamma_tag == \'Gamma5\':\n        g = gamma5\n    elif gamma_tag == \'GammaX\':\n        g = gamma[0]\n    elif gamma_tag == \'GammaY\':\n        g = gamma[1]\n    elif gamma_tag == \'GammaZ\':\n        g = gamma[2]\n    elif gamma_tag == \'GammaT\':\n        g = gamma[3]\n    elif gamma_tag == \'GammaXGamma5\':\n        g = gamma[0] @ gamma5\n    elif gamma_tag == \'GammaYGamma5\':\n        g = gamma[1] @ gamma5\n    elif gamma_tag == \'GammaZGamma5\':\n        g = gamma[2] @ gamma5\n    elif gamma_tag == \'GammaTGamma5\':\n        g = gamma[3] @ gamma5\n    elif gamma_tag == \'SigmaXT\':\n        g = 0.5 * (gamma[0] @ gamma[3] - gamma[3] @ gamma[0])\n    elif gamma_tag == \'SigmaXY\':\n        g = 0.5 * (gamma[0] @ gamma[1] - gamma[1] @ gamma[0])\n    elif gamma_tag == \'SigmaXZ\':\n        g = 0.5 * (gamma[0] @ gamma[2] - gamma[2] @ gamma[0])\n    elif gamma_tag == \'SigmaYT\':\n        g = 0.5 * (gamma[1] @ gamma[3] - gamma[3] @ gamma[1])\n    elif gamma_tag == \'SigmaYZ\':\n        g = 0.5 * (gamma[1] @ gamma[2] - gamma[2] @ gamma[1])\n    elif gamma_tag == \'SigmaZT\':\n        g = 0.5 * (gamma[2] @ gamma[3] - gamma[3] @ gamma[2])\n', 'def _sig(mu, nu):\n    return 0.5 * (gamma[mu] @ gamma[nu] - gamma[nu] @ gamma[mu])\n\n\ndef Grid_gamma(gamma_tag):\n    """Returns gamma matrix in Grid labeling."""\n    if gamma_tag == \'Identity\':\n        g = identity\n    elif gamma_tag == \'Gamma5\':\n        g = gamma5\n    elif gamma_tag == \'GammaX\':\n        g = gamma[0]\n    elif gamma_tag == \'GammaY\':\n        g = gamma[1]\n    elif gamma_tag == \'GammaZ\':\n        g = gamma[2]\n    elif gamma_tag == \'GammaT\':\n        g = gamma[3]\n    elif gamma_tag == \'GammaXGamma5\':\n        g = gamma[0] @ gamma5\n    elif gamma_tag == \'GammaYGamma5\':\n        g = gamma[1] @ gamma5\n    elif gamma_tag == \'GammaZGamma5\':\n        g = gamma[2] @ gamma5\n    elif gamma_tag == \'GammaTGamma5\':\n        g = gamma[3] @ gamma5\n    elif gamma_tag == \'SigmaXT\':\n        g = _sig(0, 3)\n    elif gamma_tag == \'SigmaXY\':\n        g = _sig(0, 1)\n    elif gamma_tag == \'SigmaXZ\':\n        g = _sig(0, 2)\n    elif gamma_tag == \'SigmaYT\':\n        g = _sig(1, 3)\n    elif gamma_tag == \'SigmaYZ\':\n        g = _sig(1, 2)\n    elif gamma_tag == \'SigmaZT\':\n        g = _sig(2, 3)\n', 'BENIGN'),
     ('sigma-via-helper-one-swapped', 'pyerrors/dirac.py', 'def Grid_gamma(gamma_tag):\n    """Returns gamma matrix in Grid labeling."""\n    if gamma_tag == \'Identity\':\n        g = identity\n    elif gamma_tag == \'Gamma5\':\n        g = gamma5\n    elif gamma_tag == \'GammaX\':\n        g = gamma[0]\n    elif gamma_tag == \'GammaY\':\n        g = gamma[1]\n    elif gamma_tag == \'GammaZ\':\n        g = gamma[2]\n    elif gamma_tag == \'GammaT\':\n        g = gamma[3]\n    elif gamma_tag == \'GammaXGamma5\':\n        g = gamma[0] @ gamma5\n    elif gamma_tag == \'GammaYGamma5\':\n        g = gamma[1] @ gamma5\n    elif gamma_tag == \'GammaZGamma5\':\n        g = gamma[2] @ gamma5\n    elif gamma_tag == \'GammaTGamma5\':\n        g = gamma[3] @ gamma5\n    elif gamma_tag == \'SigmaXT\':\n        g = 0.5 * (gamma[0] @ gamma[3] - gamma[3] @ gamma[0])\n    elif gamma_tag == \'SigmaXY\':\n        g = 0.5 * (gamma[0] @ gamma[1] - gamma[1] @ gamma[0])\n    elif gamma_tag == \'SigmaXZ\':\n        g = 0.5 * (gamma[0] @ gamma[2] - gamma[2] @ gamma[0])\n    elif gamma_tag == \'SigmaYT\':\n        g = 0.5 * (gamma[1] @ gamma[3] - gamma[3] @ gamma[1])\n    elif gamma_tag == \'SigmaYZ\':\n        g = 0.5 * (gamma[1] @ gamma[2] - gamma[2] @ gamma[1])\n    elif gamma_tag == \'SigmaZT\':\n        g = 0.5 * (gamma[2] @ gamma[3] - gamma[3] @ gamma[2])\n', 'def _sig(mu, nu):\n    return 0.5 * (gamma[mu] @ gamma[nu] - gamma[nu] @ gamma[mu])\n\n\ndef Grid_gamma(gamma_tag):\n    """Returns gamma matrix in Grid labeling."""\n    if gamma_tag == \'Identity\':\n        g = identity\n    elif gamma_tag == \'Gamma5\':\n        g = gamma5\n    elif gamma_tag == \'GammaX\':\n        g = gamma[0]\n    elif gamma_tag == \'GammaY\':\n        g = gamma[1]\n    elif gamma_tag == \'GammaZ\':\n        g = gamma[2]\n    elif gamma_tag == \'GammaT\':\n        g = gamma[3]\n    elif gamma_tag == \'GammaXGamma5\':\n        g = gamma[0] @ gamma5\n    elif gamma_tag == \'GammaYGamma5\':\n        g = gamma[1] @ gamma5\n    elif gamma_tag == \'GammaZGamma5\':\n        g = gamma[2] @ gamma5\n    elif gamma_tag == \'GammaTGamma5\':\n        g = gamma[3] @ gamma5\n    elif gamma_tag == \'SigmaXT\':\n        g = _sig(0, 3)\n    elif gamma_tag == \'SigmaXY\':\n        g = _sig(0, 1)\n    elif gamma_tag == \'SigmaXZ\':\n        g = _sig(0, 2)\n    elif gamma_tag == \'SigmaYT\':\n        g = _sig(1, 3)\n    elif gamma_tag == \'SigmaYZ\':\n        g = _sig(2, 1)\n    elif gamma_tag == \'SigmaZT\':\n        g = _sig(2, 3)\n', 'C20-D2'),
     ('gamma-entry-sign', 'pyerrors/dirac.py', "[[0, 0, 1j, 0], [0, 0, 0, -1j], [-1j, 0, 0, 0], [0, 1j, 0, 0]]", "[[0, 0, 1j, 0], [0, 0, 0, 1j], [-1j, 0, 0, 0], [0, -1j, 0, 0]]", None),
